@@ -95,7 +95,7 @@ func unsafeString(b []byte) string {
 }
 
 func mustAtoi(f []byte, column int) int {
-	i, err := strconv.ParseInt(unsafeString(f), 0, 0)
+	i, err := strconv.ParseInt(unsafeString(f), 10, 0)
 	if err != nil {
 		panic(&csv.ParseError{Column: column, Err: err})
 	}
@@ -103,7 +103,7 @@ func mustAtoi(f []byte, column int) int {
 }
 
 func mustAtob(f []byte, column int) byte {
-	b, err := strconv.ParseUint(unsafeString(f), 0, 8)
+	b, err := strconv.ParseUint(unsafeString(f), 10, 8)
 	if err != nil {
 		panic(&csv.ParseError{Column: column, Err: err})
 	}
